@@ -378,8 +378,22 @@ static int hm_convert(MPT_INTERFACE(convertable) *c, MPT_TYPE(type) t, void *p)
 	if (t == MPT_ENUM(TypeMetaPtr)) { if (p) *(void **) p = c; return 0; }
 	return MPT_ERROR(BadType);
 }
-static void hm_unref(MPT_INTERFACE(metatype) *m) { hmeta *h = (hmeta *) m; hrefs[h->id]--; hdrop[h->id]++; }
-static uintptr_t hm_addref(MPT_INTERFACE(metatype) *m) { hmeta *h = (hmeta *) m; hadd[h->id]++; return (uintptr_t) ++hrefs[h->id]; }
+static int hgone[6];
+static void hm_unref(MPT_INTERFACE(metatype) *m)
+{
+	hmeta *h = (hmeta *) m;
+	if (hgone[h->id]) vf_fail("assign:release-after-destroy", "metatype %d released after its last reference was dropped", h->id);
+	hrefs[h->id]--; hdrop[h->id]++;
+	if (!hrefs[h->id]) hgone[h->id] = 1;   /* a real object is destroyed here */
+}
+static uintptr_t hm_addref(MPT_INTERFACE(metatype) *m)
+{
+	hmeta *h = (hmeta *) m;
+	if (hgone[h->id]) vf_fail("assign:retain-after-destroy", "metatype %d retained after its last reference was dropped (old referent released before the new one was retained)", h->id);
+	if (h->id == 5) return 0;   /* unshareable kind: addref reports failure */
+	hadd[h->id]++;
+	return (uintptr_t) ++hrefs[h->id];
+}
 static MPT_INTERFACE(metatype) *hm_clone(const MPT_INTERFACE(metatype) *m) { (void) m; return 0; }
 static const MPT_INTERFACE_VPTR(metatype) hm_vptr = { { hm_convert }, hm_unref, hm_addref, hm_clone };
 static hmeta hm[6];
@@ -390,10 +404,13 @@ static void case_assign(vf_rng *r)
 	int held[2] = { -1, -1 };
 	int nops = vf_range(r, 3, 30);
 	char ctx[160];
-	for (int i = 0; i < 6; i++) { hm[i].mt._vptr = &hm_vptr; hm[i].id = i; hrefs[i] = 1; hadd[i] = hdrop[i] = 0; }
+	/* objects 0..2: the harness keeps a reference of its own; 3..4: the slots hold the only references;
+	 * 5: addref always fails */
+	for (int i = 0; i < 6; i++) { hm[i].mt._vptr = &hm_vptr; hm[i].id = i; hrefs[i] = i < 3 ? 1 : 0; hadd[i] = hdrop[i] = 0; hgone[i] = 0; }
 	vf_fp_u64(0xd);
 	for (int i = 0; i < nops; i++) {
 		int s = (int) vf_below(r, 2), n = (int) vf_below(r, 7) - 1, how = (int) vf_below(r, 3);
+		if (n >= 0 && hgone[n]) n = -1;       /* destroyed objects cannot be sources any more */
 		MPT_INTERFACE(metatype) *src = n < 0 ? 0 : &hm[n].mt;
 		long a0[6], d0[6];
 		memcpy(a0, hadd, sizeof(a0)); memcpy(d0, hdrop, sizeof(d0));
@@ -422,8 +439,10 @@ static void case_assign(vf_rng *r)
 			for (int k = 0; k < 6; k++) VF_CHECK(hadd[k] == a0[k] && hdrop[k] == d0[k], "assign:refused-but-counted", "%s: returned %d but reference counts moved", ctx, ret);
 			VF_CHECK(slot[s] == (old < 0 ? 0 : &hm[old].mt), "assign:refused-but-replaced", "%s: returned %d but slot changed", ctx, ret);
 			vf_count("assign:refused", 1);
+			if (n == 5) vf_count("assign:refused-unshareable-source", 1);
 			continue;
 		}
+		VF_CHECK(n != 5, "assign:accepted-unretainable", "%s: referent whose addref fails was stored", ctx);
 		VF_CHECK(slot[s] == src, "assign:slot-value", "%s: slot does not hold the new referent", ctx);
 		for (int k = 0; k < 6; k++) {
 			long ea = (k == n) ? 1 : 0, ed = (k == old) ? 1 : 0;
